@@ -277,6 +277,7 @@ fn msg() -> impl Strategy<Value = Msg> {
 }
 
 pub fn run(ctx: &mut Ctx) {
+    let fs = ctx.first_shard();
     ctx.rule = "messages over channel ids (0, broadcast, random), all nine commands, payload lengths (every value 0..=7700, 65535/65536/70000, random) with zero / 0xFF / pseudo-random contents: sender output parsed by an independent packet parser and fed to a fresh receiver. Interleavings of 2-4 channels: ALL order-preserving merges when the streams have at most 9 packets in total, generated merges otherwise. Non-trivial = message with at least one continuation packet, a refused over-long payload, or a merge of at least two channels; distinct by message / by (messages, order).".into();
     ctx.assumptions = vec![
         "the channel id byte order is accepted as either endianness but must be the same in all packets and round-trip".into(),
@@ -295,7 +296,7 @@ pub fn run(ctx: &mut Ctx) {
     lens.extend(0..=7700);
     lens.sort();
     lens.dedup();
-    'sweep: for (i, len) in lens.iter().enumerate() {
+    'sweep: for (i, len) in lens.iter().enumerate().filter(|_| fs) {
         for fill in if thorough { vec![0u8, 255, 7] } else { vec![(i % 254) as u8 + 1] } {
             let m = Msg { channel: [0x0102_0304u32, 0, 0xFFFF_FFFF, 0xA1B2_C3D4][i % 4], cmd: i % 9, len: *len, fill };
             if let Err(e) = check_message(ctx, &m) {
@@ -306,7 +307,7 @@ pub fn run(ctx: &mut Ctx) {
     }
     ctx.note("length_sweep_values", json!(lens.len()));
     // ---- generated messages
-    let n = ctx.tier.pick(20_000u32, 400_000u32);
+    let n = ctx.tier.pick(20_000u32, 4_000_000u32);
     match search(ctx, 16, n, msg(), check_message) {
         Search::Pass => {}
         Search::Fail(m, e) => ctx.violation("messages", json!(m), &e),
@@ -314,7 +315,7 @@ pub fn run(ctx: &mut Ctx) {
     // ---- exhaustive merges of short streams
     let mut enumerated = 0u64;
     let shapes: Vec<Vec<usize>> = vec![vec![1, 1], vec![2, 1], vec![2, 2], vec![3, 2], vec![3, 3], vec![4, 3], vec![1, 1, 1], vec![2, 2, 1], vec![2, 2, 2], vec![3, 2, 2], vec![3, 3, 2], vec![2, 2, 2, 2], vec![3, 2, 2, 1], vec![4, 4], vec![5, 3]];
-    'merges: for (si, shape) in shapes.iter().enumerate() {
+    'merges: for (si, shape) in shapes.iter().enumerate().filter(|_| fs) {
         if shape.iter().sum::<usize>() > ctx.tier.pick(9, 10) {
             continue;
         }
@@ -341,7 +342,7 @@ pub fn run(ctx: &mut Ctx) {
         }
         Merge { msgs, order }
     });
-    let n = ctx.tier.pick(15_000u32, 400_000u32);
+    let n = ctx.tier.pick(15_000u32, 4_000_000u32);
     match search(ctx, 26, n, strat, check_merge) {
         Search::Pass => {}
         Search::Fail(m, e) => ctx.violation("merges", json!(m), &e),
